@@ -190,6 +190,21 @@ def stepLine (s : DState) (w : List String) : DState × String :=
     match (if has s.pkts a then plWrite (lookup s.pkts a) (nat! off) (nat! v) else none) with
     | some p => ({ s with pkts := upsert s.pkts a p }, "ok")
     | none => (s, "bad-op")
+  -- the payload replaced / re-tagged IN PLACE through the reference `getPayload()` returns (the packet object is not told)
+  | ["pk", "plassign", a, ty, hx] =>
+    match (if has s.pkts a && (lookup s.pkts a).payload.isSome then parseBytes hx else none) with
+    | some d =>
+      match mkPayload ty d with
+      | some pl => ({ s with pkts := upsert s.pkts a { lookup s.pkts a with payload := some pl } }, "ok")
+      | none => (s, "bad-op")
+    | none => (s, "bad-op")
+  | ["pk", "plsettype", a, ty] =>
+    if has s.pkts a then
+      let p := lookup s.pkts a
+      match p.payload with
+      | some pl => ({ s with pkts := upsert s.pkts a { p with payload := some { pl with ty := nat! ty % 2 ^ 32 } } }, "ok")
+      | none => (s, "bad-op")
+    else (s, "bad-op")
   -- the reference is taken BEFORE the copy / assignment and written through AFTER it: only the source changes
   | ["pk", "refcopy", d, src, off, v] =>
     match (if has s.pkts src && d != src then plWrite (lookup s.pkts src) (nat! off) (nat! v) else none) with
